@@ -160,10 +160,11 @@ var shardTable = map[string]int{
 	"C05/hist/lifecycle-handler-panics-seq-mode0": 8, "C05/hist/lifecycle-handler-panics-seq-mode1": 8,
 	"C06/hist/exhaust-mode0": 4, "C06/hist/exhaust-mode1": 6,
 	"C06/hist/exhaust-long-mode0": 4, "C06/hist/exhaust-long-mode1": 4,
+	"C07/hist/one-stop-mode0": 4, "C07/hist/one-stop-mode1": 4, "C07/hist/two-stops-mode0": 8, "C07/hist/two-stops-mode1": 8,
 	"C08/engine/tree-shutdown": 10, "C08/engine/tree-shutdown-large": 6,
 	"C08/engine/child-self-stop-races-shutdown": 2, "C08/engine/child-crash-races-shutdown": 2,
 	"C08/engine/third-party-poison-races-shutdown": 2, "C08/engine/child-max-restarts-races-shutdown": 2,
 	"C10/engine/concurrent-spawn": 4, "C10/engine/concurrent-spawn-3": 7,
-	"C11/engine/request-reply": 5, "C11/engine/multi-reply": 6, "C11/engine/three-requesters": 3,
+	"C11/engine/request-reply": 6, "C11/engine/multi-reply": 8, "C11/engine/three-requesters": 3,
 	"C09/engine/targets-x-messages": 4, "C09/engine/gone-subscriber": 4,
 }
